@@ -5,7 +5,7 @@
 
 Mutation operators (textual, one site per mutant): `==`<->`!=`, `&&`<->`||`, `.is_some()`<->`.is_none()`, `true`<->`false`,
 `if c {` -> `if !(c) {`, `.is_empty()` -> negated, deletion of a single-line `push_tokens!(..);` / `.push(..);` / `.insert(..);` /
-`.extend(..);` statement, one argument line of a multi-line `push_tokens!` call (a token dropped), `.skip(n)`/`.take(n)`/`[n]` off by one. Test modules, the recorder hook and comments are left alone.
+`.extend(..);` statement, one argument line of a multi-line `push_tokens!` call (a token dropped), one line of a multi-line `quote!` / `parse_quote!` template or one token of a one-line template, `.skip(n)`/`.take(n)`/`[n]` off by one. Test modules, the recorder hook and comments are left alone.
 Everything happens in a scratch worktree of /repo under <outdir>; nothing is written to /repo."""
 import difflib
 import glob
@@ -16,6 +16,7 @@ import subprocess
 import sys
 
 REPO = "/repo"
+KINDS = [k for k in os.environ.get("MUT_KINDS", "").split(",") if k]      # restrict `gen` to some operators
 SRC = "entrait_macros/src"
 
 
@@ -36,6 +37,30 @@ def sites(path, text):
                 if lines[a].strip().endswith(",") or a == k - 1:
                     out.append((a, "deltoken", re.match(r"^\s*", lines[a]).group(0) + "// dropped"))
             j = k
+        j += 1
+    # the token templates: every line of a multi-line `quote! { .. }` / `parse_quote! { .. }` dropped in turn, and every token of a
+    # one-line template dropped in turn
+    j = 0
+    while j < len(lines):
+        if lines[j].strip().startswith("#[cfg(test)]"):
+            break
+        m = re.search(r"\b(parse_)?quote! \{\s*$", lines[j])
+        if m:
+            ind = len(lines[j]) - len(lines[j].lstrip())
+            k = j + 1
+            while k < len(lines) and not (lines[k].strip().startswith("}") and len(lines[k]) - len(lines[k].lstrip()) <= ind):
+                k += 1
+            for a in range(j + 1, k):
+                if lines[a].strip() and not lines[a].strip().startswith("//"):
+                    out.append((a, "quoteline", re.match(r"^\s*", lines[a]).group(0) + "// dropped"))
+            j = k
+        else:
+            m = re.search(r"\b(?:parse_)?quote! \{ (.*) \}", lines[j])
+            if m:
+                toks = m.group(1).split(" ")
+                for t in range(min(len(toks), 8)):
+                    new_inner = " ".join(toks[:t] + toks[t + 1:])
+                    out.append((j, "quotetok", lines[j][:m.start(1)] + new_inner + lines[j][m.end(1):]))
         j += 1
     for i, l in enumerate(lines):
         s = l.strip()
@@ -88,11 +113,16 @@ def gen(outdir):
             continue
         text = open(f).read()
         lines = text.split("\n")
+        if lines and lines[-1] == "":
+            lines = lines[:-1]          # the file ends with a newline: no phantom last line (it used to spoil diffs near the end)
+            text = "\n".join(lines)
         for i, kind, new in sites(f, text):
+            if KINDS and kind not in KINDS:
+                continue
             n += 1
             mut = lines[:i] + [new] + lines[i + 1:]
             with open(f, "w") as fh:
-                fh.write("\n".join(mut))
+                fh.write("\n".join(mut) + "\n")
             r = subprocess.run(["cargo", "check", "--offline", "-p", "entrait_macros"], cwd=wt, env=env, stdout=subprocess.PIPE, stderr=subprocess.STDOUT, text=True)
             if r.returncode == 0:
                 kept += 1
@@ -105,7 +135,7 @@ def gen(outdir):
                 json.dump(meta, open(os.path.join(d, "meta.json"), "w"), indent=1)
                 index.append(meta)
             with open(f, "w") as fh:
-                fh.write(text)
+                fh.write(text + "\n")
     json.dump(index, open(os.path.join(outdir, "index.json"), "w"), indent=1)
     subprocess.run("git -C %s worktree remove --force %s; rm -rf %s" % (REPO, wt, os.path.join(outdir, "target")), shell=True, stdout=subprocess.DEVNULL, stderr=subprocess.DEVNULL)
     print("sites %d, compiling mutants %d" % (n, kept))
